@@ -441,3 +441,43 @@ class Run:
             return 1
         print(f"OK property={self.prop} tier={self.tier} wall={wall:.1f}s")
         return 0
+
+
+# ----------------------------------------------------------------------------- TLAPS (informative)
+
+def tlaps(run, module, timeout=180):
+    """Check the proofs of spec/proofs/<module>.tla with tlapm in a fresh directory (no fingerprint cache, so
+    every obligation is really proved on this run).  Informative, never a verdict: a failure, a timeout or a
+    missing tool is recorded as a note in the evidence."""
+    import shutil as _sh
+    res = {"tool": "tlapm (TLAPS, SMT back end)", "spec": f"spec/proofs/{module}.tla", "obligations": 0, "proved": 0,
+           "role": "informative: theorems about the specification itself, for every input (TLC checks bounded / sampled "
+                   "instances of the same facts); the verdict about the code remains trace validation"}
+    if _sh.which("tlapm") is None:
+        res["note"] = "tlapm not installed"
+        return res
+    d = os.path.join(run.work, "tlaps")
+    _sh.rmtree(d, ignore_errors=True)
+    os.makedirs(d)
+    _sh.copy(os.path.join(SPEC, "proofs", module + ".tla"), d)
+    t0 = time.time()
+    try:
+        p = sh(["timeout", "-k", "5", str(timeout), "tlapm", "--threads", "4", "-I", SPEC, module + ".tla"], cwd=d,
+               timeout=timeout + 30, check=False)
+    except ToolError as e:
+        res["note"] = str(e)[:200]
+        return res
+    out = p.stdout or ""
+    m = re.search(r"All (\d+) obligations? proved", out)
+    f = re.search(r"(\d+)/(\d+) obligations? failed", out)
+    if m:
+        res["obligations"] = res["proved"] = int(m.group(1))
+    elif f:
+        res["obligations"] = int(f.group(2))
+        res["proved"] = int(f.group(2)) - int(f.group(1))
+        res["note"] = "not all obligations proved: " + out[-300:]
+    else:
+        res["note"] = "tlapm gave no summary (timeout or tool failure): " + out[-300:]
+    res["theorems"] = re.findall(r"^THEOREM (\w+)", open(os.path.join(d, module + ".tla")).read(), re.M)
+    res["wall_s"] = round(time.time() - t0, 1)
+    return res
